@@ -6,7 +6,7 @@ import BumpProof.Lemmas.MemAlloc
 
 set_option linter.unusedSimpArgs false
 
-namespace Arena
+namespace Arena.Mem
 open Rs
 
 /-- effect of a reallocation from `ptr` to `np` on memory: the first `n` bytes were carried over and
@@ -179,4 +179,4 @@ theorem allocatePreparedSlice_frame {cfg : Cfg} {s s' : State} {ptr len cap esiz
         (MemWF.of_shape (shapeOf_of_memOf (setPosAlignFrom_memOf (by assumption))).symm hwf) hold (by assumption)
         (Nat.le_refl _)).of_memOf_right (setPosAlignFrom_memOf (by assumption))
 
-end Arena
+end Arena.Mem
